@@ -182,6 +182,13 @@ func (r *Recorder) Write(ctx context.Context, up *iscp.Upstream, writer int, id 
 	return err
 }
 
+// ResumedCount returns the number of resumed notifications so far.
+func (r *Recorder) ResumedCount() int {
+	r.mu.Lock()
+	defer r.mu.Unlock()
+	return r.Resumed
+}
+
 // Snapshot returns copies of the recorded data.
 func (r *Recorder) Snapshot() (writes []WriteRec, send []HookChunk, acks []iscp.UpstreamChunkResult, closed []ClosedRec) {
 	r.mu.Lock()
